@@ -21,7 +21,7 @@ PROPS["C12"] = {
                    "c12::c12_slices_t3_any_address",
                    "c12::c12_slicemut_u8_4", "c12::c12_slicemut_u64_4", "c12::c12_slicemut_zst_4", "c12::c12_slicemut_t3_4",
                    "c12::c12_utf8_decision_4", "c12::c12_utf8_decision_after_rewrite_3", "c12::c12_str_rt_4",
-                   "c12::c12_coption_value", "c12::c12_coption_moves", "c12::c12_cresult_value", "c12::c12_cresult_moves",
+                   "c12::c12_coption_value", "c12::c12_option_result_wide_payloads", "c12::c12_coption_moves", "c12::c12_cresult_value", "c12::c12_cresult_moves",
                    "c12::c12_ctup", "c12::c12_negative_twin"],
          "thorough_adds": ["c12::c12_sliceref_u8_6", "c12::c12_sliceref_u64_6", "c12::c12_sliceref_t3_6",
                            "c12::c12_slicemut_u8_6", "c12::c12_slicemut_u64_6", "c12::c12_slicemut_t3_6",
@@ -105,7 +105,7 @@ PROPS["C10"] = {
     "groups": [
         {"id": "arc",
          "quick": ["c10::c10_pool_k2", "c10::c10_pool_k3", "c10::c10_from_value_last_handle_drops", "c10::c10_empty_is_inert",
-                   "c10::c10_zero_sized_value_with_destructor",
+                   "c10::c10_zero_sized_value_with_destructor", "c10::c10_last_handle_with_weak_observer",
                    "c10::c10_foreign_functions_used", "c16::c16_carc_view_overaligned_opaque_clone", "c10::c10_negative_twin"],
          "thorough_adds": ["c10::c10_pool_k4"],
          "timeout": 3000},
@@ -147,7 +147,7 @@ PROPS["C15"] = {
     "groups": [
         {"id": "feed",
          "quick": ["c15::c15_feed_into_closure_4", "c15::c15_feed_into_mut_closure_4", "c15::c15_extend_closure_4",
-                   "c15::c15_collect_vec_3", "c15::c15_collect_extend_3", "c15::c15_call_forwards",
+                   "c15::c15_collect_vec_3", "c15::c15_collect_extend_3", "c15::c15_collect_zero_sized_items", "c15::c15_call_forwards",
                    "c15::c15_feed_twice_same_callback", "c15::c15_feed_borrowed_source_takes_only_what_it_offers", "c15::c15_collect_vec_beyond_capacity",
                    "c15::c15_items_dropped_once", "c15::c15_citer_same_items_4", "c15::c15_citer_interleave_4",
                    "c15::c15_citer_items_owned_once", "c15::c15_citer_unbounded_source", "c15::c15_citer_not_fused_source", "c15::c15_citer_provided_methods_owned_once", "c15::c15_negative_twin"],
@@ -275,7 +275,8 @@ PROPS["C16"] = {
         {"id": "views",
          "quick": ["c16::c16_cbox_view", "c16::c16_carc_view", "c16::c16_carc_view_overaligned_opaque_clone", "c16::c16_slices_u8", "c16::c16_slices_u64", "c16::c16_slices_t3",
                    "c16::c16_cvec_u8_exact", "c16::c16_cvec_u64_exact", "c16::c16_cvec_u64_spare", "c16::c16_cvec_t3_empty",
-                   "c16::c16_callback_view", "c16::c16_citerator_view", "c16::c16_citerator_view_droppable_items", "c16::c16_views_made_by_c", "c16::c16_cslicebox_view_released_by_c", "c16::c16_tags", "c16::c16_negative_twin"],
+                   "c16::c16_callback_view", "c16::c16_citerator_view", "c16::c16_citerator_view_droppable_items", "c16::c16_views_made_by_c", "c16::c16_cslicebox_view_released_by_c",
+                   "c05::c05_foreign_cvec_i0", "c10::c10_foreign_functions_used", "c16::c16_tags", "c16::c16_negative_twin"],
          "cbmc_args": LEAK, "timeout": 1200},
         # the published object container: instance, context, temporary storage (generated code, hence the gen crate)
         {"id": "object_container", "crate": "gen", "quick": ["c04::c04_container_order_with_context_and_ret_tmp",
@@ -343,6 +344,9 @@ PROPS["C05"] = {
          "quick": ["c05::c05_foreign_cbox", "c05::c05_foreign_cvec_i1", "c05::c05_foreign_cslicebox", "c05::c05_foreign_callback",
                    "c05::c05_foreign_iterator"],
          "rustflags": _LAYOUT_SEED_FLAGS, "timeout": 1200},
+        {"id": "container_layout_seed", "crate": "gen",
+         "quick": ["c04::c04_object_with_context_words", "c04::c04_container_order_with_context_and_ret_tmp", "c04::c04_group_words"],
+         "rustflags": _LAYOUT_SEED_FLAGS, "timeout": 900},
     ],
     "negative": ["c05::c05_negative_twin"],
     "bounds": "two-role model inside one build: values fabricated through their C view by a plugin role with its own function "
